@@ -300,7 +300,7 @@ def make_db(scratch):
 
 
 def gene_info_state(g):
-    return (g.chr_id, g.start, g.end, g.delta, tuple(x.id for x in g.gene_db_list),
+    return (g.chr_id, g.start, g.end, g.all_read_region_start, g.all_read_region_end, g.delta, tuple(x.id for x in g.gene_db_list),
             tuple(sorted((k, tuple(v)) for k, v in g.all_isoforms_exons.items())),
             tuple(g.intron_profiles.features), tuple(g.exon_profiles.features),
             tuple(sorted((k, tuple(v)) for k, v in g.intron_profiles.profiles.items())),
@@ -320,6 +320,9 @@ def stream_search(scratch, depth):
     gi_real = GeneInfo([by_id["G1"]], db, delta=6)
     gi_two = GeneInfo([by_id["G1"], by_id["G2"]], db, delta=4)
     gi_nested = GeneInfo([by_id["G1"], by_id["G3"]], db, delta=6)      # same chromosome, start and end as gi_real, other genes
+    # the region covered by the reads (for which the reference sequence is loaded) is wider than the genes
+    gi_real.all_read_region_start, gi_real.all_read_region_end = gi_real.start - 300, gi_real.end + 500
+    gi_nested.all_read_region_start = gi_nested.start - 1
     gi_region = GeneInfo.from_region("chr1", 4000, 4500, delta=6)
     ra_a = default_ra(IA, PolyAInfo)
     ra_b = default_ra(IA, PolyAInfo)
